@@ -39,6 +39,12 @@ pub struct Norm<'a> {
     pub errors: Vec<String>,
     pub closure_depth: usize,
     pub canaries: Vec<String>,
+    /// R-STRSLICE: parameters whose declared type is `&str`
+    pub str_idents: BTreeSet<String>,
+    /// R-ITER(for): parameters whose (overridden) type is the `VxIter` model type
+    pub iter_idents: BTreeSet<String>,
+    pub bind_no: BTreeMap<String, usize>,
+    pub bind_done: BTreeSet<usize>,
 }
 
 const ITER_HEADS_M: &[&str] = &["vx_iter", "vx_into_iter", "vx_iter_mut", "vx_chars", "vx_char_indices", "vx_bytes", "vx_keys", "vx_values"];
@@ -51,7 +57,7 @@ impl<'a> Norm<'a> {
             loop_no: 0, closure_no: 0, if_no: 0, match_no: 0, assert_no: 0, return_no: 0, forpat_no: 0, tmp_no: 0, split_no: 0, splitk_no: Default::default(),
             call_no: Default::default(), let_no: Default::default(), hoisted: vec![], log: Default::default(),
             raws: vec![], used_anchors: Default::default(), avail_anchors: Default::default(), errors: vec![],
-            closure_depth: 0, canaries: vec![],
+            closure_depth: 0, canaries: vec![], str_idents: Default::default(), iter_idents: Default::default(), bind_no: Default::default(), bind_done: Default::default(),
         }
     }
     pub fn bump(&mut self, r: &str) {
@@ -658,6 +664,32 @@ impl<'a> VisitMut for Norm<'a> {
             let saved = std::mem::take(&mut self.hoisted);
             self.visit_stmt_mut(&mut s);
             let mine = std::mem::replace(&mut self.hoisted, saved);
+            // R-ARGBIND: name one argument of a statement-level call (`f(..);`, tail `f(..)`, `let p = f(..);`) so that
+            // ghost text can refer to it. Only when every earlier argument is a path/literal (evaluation order is kept).
+            let mut argbind: Vec<Stmt> = vec![];
+            if !self.spec.bindarg.is_empty() {
+                let call: Option<&mut ExprCall> = match &mut s {
+                    Stmt::Expr(Expr::Call(c), _) => Some(c),
+                    Stmt::Local(l) => l.init.as_mut().and_then(|i| if i.diverge.is_none() { if let Expr::Call(c) = &mut *i.expr { Some(c) } else { None } } else { None }),
+                    _ => None,
+                };
+                if let Some(c) = call {
+                    let nm = squash(&ts(&c.func));
+                    let k = { let k = self.bind_no.entry(nm.clone()).or_default(); *k += 1; *k };
+                    let specs: Vec<(usize, (String, usize, usize, String))> = self.spec.bindarg.iter().cloned().enumerate().collect();
+                    for (bi, (callee, kk, idx, name)) in specs {
+                        if callee == nm && kk == k && idx < c.args.len() && c.args.iter().take(idx).all(|a| matches!(a, Expr::Path(_) | Expr::Lit(_))) {
+                            let id = Ident::new(&name, Span::call_site());
+                            let a = c.args[idx].clone();
+                            argbind.push(parse_quote!(let #id = #a;));
+                            c.args[idx] = parse_quote!(#id);
+                            argbind.extend(self.anchor(&format!("after-let {}", name)));
+                            self.bind_done.insert(bi);
+                            self.bump("R-ARGBIND");
+                        }
+                    }
+                }
+            }
             // call anchors (after renaming)
             let callee = match &s {
                 Stmt::Expr(Expr::MethodCall(mc), _) => Some(mc.method.to_string()),
@@ -680,6 +712,7 @@ impl<'a> VisitMut for Norm<'a> {
             }
             b.stmts.extend(mine);
             b.stmts.extend(before);
+            b.stmts.extend(argbind);
             b.stmts.push(s);
             b.stmts.extend(derefs);
             b.stmts.extend(after);
@@ -848,6 +881,10 @@ impl<'a> VisitMut for Norm<'a> {
                         *f.expr = r;
                         chain = false;
                     }
+                }
+                // a bare identifier that names a `VxIter`-typed parameter is an iterator chain of length 0
+                if let Expr::Path(p) = &*f.expr {
+                    if p.path.get_ident().map(|i| self.iter_idents.contains(&i.to_string())).unwrap_or(false) { chain = true; }
                 }
                 if chain {
                     let ex = &f.expr;
@@ -1222,6 +1259,24 @@ impl<'a> VisitMut for Norm<'a> {
                     }
                 }
             }
+            Expr::Reference(r) if r.mutability.is_none() => {
+                // R-STRSLICE: `&x[a..b]` / `&x[a..]` / `&x[..b]` with `x` a `&str` parameter (or a shadowing rebinding of it)
+                if let Expr::Index(ix) = &*r.expr {
+                    let is_str = if let Expr::Path(p) = &*ix.expr { p.path.get_ident().map(|i| self.str_idents.contains(&i.to_string())).unwrap_or(false) } else { false };
+                    if let (true, Expr::Range(rg)) = (is_str, &*ix.index) {
+                        if matches!(rg.limits, RangeLimits::HalfOpen(_)) {
+                            let x = &ix.expr;
+                            match (rg.start.as_ref(), rg.end.as_ref()) {
+                                (Some(a), Some(b)) => { replace = Some(parse_quote!(#x.vx_slice(#a, #b))); }
+                                (Some(a), None) => { replace = Some(parse_quote!(#x.vx_slice_from(#a))); }
+                                (None, Some(b)) => { replace = Some(parse_quote!(#x.vx_slice_to(#b))); }
+                                (None, None) => {}
+                            }
+                            if replace.is_some() { self.bump("R-STRSLICE"); }
+                        }
+                    }
+                }
+            }
             Expr::Binary(b) => {
                 // R-ENUMEQ
                 if matches!(b.op, BinOp::Eq(_) | BinOp::Ne(_)) {
@@ -1293,6 +1348,9 @@ impl<'a> Norm<'a> {
                 block.stmts.extend(ret);
                 block.stmts.extend(can);
             }
+        }
+        for (bi, (callee, k, idx, name)) in self.spec.bindarg.iter().enumerate() {
+            if !self.bind_done.contains(&bi) { self.errors.push(format!("@bindarg {}#{} {} {}: no such statement-level call in {}", callee, k, idx, name, self.fname)); }
         }
         let _ = quote!();
     }
